@@ -46,14 +46,25 @@ def check_o1(ctx) -> None:
               f'well cost is `{r.show()}`; expected (c2 m^2 + c1 m + c0) x 1e-6')
     # validity window
     f = repo.function('geophires_x/Economics.py', 'calculate_cost_of_one_vertical_well')
-    win = {}
+    # validity window: the constants the depth (first the function's depth parameter) is compared with, `depth < lo` and `depth > hi`
+    consts = {}
     for s in f.node.body:
-        if isinstance(s, ast.Assign) and norm(s.targets[0]) in ('correlations_min_valid_depth_m', 'correlations_max_valid_depth_m'):
+        if isinstance(s, ast.Assign) and len(s.targets) == 1 and isinstance(s.targets[0], ast.Name):
             ok, v = const_value(s.value)
-            if ok:
-                win[norm(s.targets[0])] = v
-    ctx.require(len(win) == 2, 'calculate_cost_of_one_vertical_well: validity window constants not found')
-    lo, hi = win['correlations_min_valid_depth_m'], win['correlations_max_valid_depth_m']
+            if ok and isinstance(v, (int, float)) and not isinstance(v, bool):
+                consts[s.targets[0].id] = v
+    depth_p = next((a_.arg for a_ in f.node.args.args if 'depth' in a_.arg), None)
+    win = {}
+    for c in ast.walk(f.node):
+        if isinstance(c, ast.Compare) and len(c.ops) == 1 and isinstance(c.left, ast.Name) and c.left.id == depth_p:
+            r_ = c.comparators[0]
+            okc, v = const_value(r_) if not isinstance(r_, ast.Name) else (r_.id in consts, consts.get(r_.id))
+            if okc and isinstance(c.ops[0], ast.Lt):
+                win.setdefault('lo', v)
+            elif okc and isinstance(c.ops[0], ast.Gt):
+                win.setdefault('hi', v)
+    ctx.require(len(win) == 2, 'calculate_cost_of_one_vertical_well: validity window (depth < lo, depth > hi against constants) not found')
+    lo, hi = win['lo'], win['hi']
     for name, row in rows.items():
         ctx.require(isinstance(row, tuple) and len(row) >= 5 and all(isinstance(x, (int, float)) for x in row[2:5]),
                     f'WellDrillingCostCorrelation.{name}: coefficients not foldable ({row!r})')
